@@ -251,19 +251,37 @@ def aerostruct_pipeline_suite(stats, tier=None, n=None, label="pipeline:Aerostru
         mesh = gen.rand_mesh(rng, nx, ny, sym)
         mesh[:, :, 1] *= 4.0; mesh[:, :, 0] *= 1.5                      # a wing-sized planform: span ~ several metres
         s = pipelines.struct_surface("wing", mesh, sym, fem_origin=float(rng.uniform(0.25, 0.5)), with_viscous=False,
-                                     thickness_cp=rng.uniform(0.004, 0.02, size=2))
-        flow = dict(alpha=float(rng.uniform(-4, 8)), beta=0.0 if sym else float(rng.uniform(-5, 5)), v=float(rng.uniform(40, 120)),
+                                     thickness_cp=rng.uniform(0.008, 0.03, size=2))
+        flow = dict(alpha=float(rng.uniform(-4, 8)), beta=0.0 if sym else float(rng.uniform(-5, 5)), v=float(rng.uniform(30, 80)),
                     rho=float(rng.uniform(0.4, 1.2)), Mach_number=0.0)
         import openaerostruct.integration.aerostruct_groups as ag
         prob = pipelines.build_aerostruct([s], [flow], nonlinear="nlbgs", aitken=False)
         # the pinned AerostructPoint uses the compressible states; at Mach 0 they coincide with the modelled incompressible ones
+        real_failed = None
         try:
             with core.quiet():
                 prob.run_model()
         except Exception as e:
-            stats.disagreements.append(dict(kind="real-code-exception", component="AerostructPoint",
-                                            detail="%s: %s" % (type(e).__name__, str(e)[:300]), seed_keys=["aerostruct_pipeline", k]))
-            stats.count(label, case_hash("as-exc", k), False)
+            real_failed = "%s: %s" % (type(e).__name__, str(e)[:300])
+        if real_failed is None and not np.all(np.isfinite(np.array(prob.get_val("AS_point_0.coupled.wing.disp")))):
+            real_failed = "non-finite converged state"
+        if real_failed is not None:
+            # a statically divergent wing (dynamic pressure above the divergence speed of the random structure) is not an
+            # admissible input: the fixed-point iteration of the real code blows up, and so must the model's
+            g0 = lambda nm: np.array(prob.get_val(nm))
+            try:
+                fl0 = np.concatenate([[flow["alpha"], flow["beta"], flow["v"], flow["rho"], s["fem_origin"]], g0("wing.mesh").ravel(),
+                                      g0("wing.nodes").ravel(), g0("wing.local_stiff_transformed").ravel()])
+                out0 = core.model_value("AeroStructCoupled", [nx, ny, int(sym), int(pipelines.left_flag(g0("wing.mesh")))], fl0)
+                model_diverged = (not np.all(np.isfinite(out0))) or int(out0[-1]) >= 200 or float(np.max(np.abs(out0[:6 * ny]))) > 1e3
+            except Exception:
+                model_diverged = True
+            if model_diverged:
+                stats.discarded = getattr(stats, "discarded", 0) + 1
+            else:
+                stats.disagreements.append(dict(kind="real-code-exception", component="AerostructPoint", detail=real_failed,
+                                                seed_keys=["aerostruct_pipeline", k]))
+                stats.count(label, case_hash("as-exc", k), False)
             continue
         g = lambda nm: np.array(prob.get_val(nm))
         m0 = g("wing.mesh"); nodes = g("wing.nodes"); kloc = g("wing.local_stiff_transformed")
@@ -274,6 +292,12 @@ def aerostruct_pipeline_suite(stats, tier=None, n=None, label="pipeline:Aerostru
         N = (nx - 1) * (ny - 1)
         mdisp = out[:6 * ny].reshape(ny, 6); mf = out[6 * ny:6 * ny + 3 * N].reshape(N, 3)
         ml = out[6 * ny + 3 * N:6 * ny + 3 * N + 6 * ny].reshape(ny, 6); its = int(out[-1])
+        span = float(np.max(np.abs(m0[..., 1])) - np.min(np.abs(m0[..., 1])))
+        if its >= 200 or float(np.max(np.abs(disp))) > 0.3 * span:
+            # next to static divergence (deflections of the order of the span, hundreds of iterations): outside the range
+            # in which the two fixed-point iterations can be compared at 1e-6; not an admissible analysis either
+            stats.discarded = getattr(stats, "discarded", 0) + 1
+            continue
         for what, a, b in (("disp", disp, mdisp), ("sec_forces", secf, mf), ("loads", loads, ml)):
             ok, msg = close_vec(a, b, rtol=1e-6)
             if not ok:
